@@ -29,5 +29,5 @@ _whole.install(globals(), "C10",
                     "under vm_compute; every round of real runs goes through the same monitors and LevelLimit is recomputed by the machine replay.",
                note="np.isclose verdicts and NBC candidates are inputs of the theorems (C15 covers NBC); which demes the generators ask is decided by the monitor on real and synthetic trees.",
                technique="Coq theorems on pure filter models + vm_compute differential run against the real filter classes + monitors on recorded rounds",
-               front_ends=["levellimit", "demelimit", "generators", "farfilters", "mechanism"], quick=160, thorough=4000, nontrivial=nontrivial, extra_checks=[direct, _whole.make_sessions("C10", {"height": 2, "sprout": {"kind": "nbc", "gen_dist": 1.0, "trunc": 1.0, "fil_dist": 0.0, "level_limit": 4}, "gsc": {"kind": "MetaepochLimit", "n": 2}})],
+               front_ends=["levellimit", "demelimit", "generators", "farfilters", "mechanism", "order"], quick=160, thorough=4000, nontrivial=nontrivial, extra_checks=[direct, _whole.make_sessions("C10", {"height": 2, "sprout": {"kind": "nbc", "gen_dist": 1.0, "trunc": 1.0, "fil_dist": 0.0, "level_limit": 4}, "gsc": {"kind": "MetaepochLimit", "n": 2}})],
                forces=[(2, None), (2, {"height": 3}), (1, {"objective_kind": "plateau"})])
